@@ -311,12 +311,21 @@ def _main(pid, args, seed, t0):
                         audit_problems.append('leanchecker rejected the compiled modules: ' + out3[-300:])
             driver_path = None
             if drv:
-                rc2, out2, _ = lake_build([drv])
+                rc2, out2, drv_errors = lake_build([drv])
                 cand = os.path.join(LEAN, '.lake', 'build', 'bin', drv)
                 if rc2 == 0 and os.path.exists(cand):
                     # private copy so that a concurrent rebuild cannot pull it from under us
                     driver_path = os.path.join(WORK, f'{drv}.{os.getpid()}')
                     subprocess.run(['cp', cand, driver_path], check=True)
+                elif drv_errors:
+                    # the model's driver no longer compiles against the regenerated facts: the
+                    # tie is broken; the oracle still searches for a failing input
+                    audit_problems = list(audit_problems) + [
+                        f'the model driver {drv} no longer builds against the current facts: '
+                        + '; '.join(f"{e['file']}:{e['line']}: {e['msg']}" for e in drv_errors[:3])]
+                else:
+                    # never run silently without the model
+                    raise MachineryError(f'lake could not build the driver {drv}:\n' + out2[-1500:])
         else:
             cand = os.path.join(LEAN, '.lake', 'build', 'bin', drv) if drv else None
             driver_path = cand if cand and os.path.exists(cand) else None
